@@ -1255,6 +1255,9 @@ func c01Main(seed uint64, out string, blocks, runs int, replay string, noBg bool
 			}
 		}
 	}
+	if replay == "" && procRuns > 0 {
+		debugFlagProbe(seed*1000+900, sum)
+	}
 	keys := make([]string, 0)
 	for k := range sum.Histograms {
 		keys = append(keys, k)
